@@ -64,6 +64,8 @@ def run(ck, fx, cg, tier):
                        "LLVM/std compute the same results in both profiles for profile-independent operations"]
     ck.assumptions = ["third-party crates (serde_*, lalrpop-util, regex, clap) are deterministic for equal inputs"]
     reach = cg.reachable(roots(ck, cg))
+    from .. import canary
+    canary.require(ck, {'R11.hash', 'Rx.cfg', 'Rx.profile', 'R11.env'})
     n_hash_uses = 0
     n_env = 0
     exempt = []
